@@ -355,7 +355,11 @@ func (r *ledRunner) line(toks []string) (string, bool) {
 		out := r.v.drain()
 		parts := strings.Fields(out)
 		sort.Strings(parts)
-		return fmt.Sprintf("%s %d leftover=%d | %s | %s", st, dt.Milliseconds()/100, deviceGoroutines(), strings.Join(parts, " "), f), true
+		slow := 0
+		if dt > time.Second {
+			slow = 1
+		}
+		return fmt.Sprintf("%s %d leftover=%d | %s | %s", st, slow, deviceGoroutines(), strings.Join(parts, " "), f), true
 	case "life.run":
 		seed, _ := strconv.ParseInt(toks[1], 10, 64)
 		return lifeRun(seed, atoi(toks[2]), &r.nextHid), true
@@ -451,7 +455,6 @@ func runScript(s lifeScript, hid int, concurrent bool, withLeds bool) (out []str
 // device's MIDI output under concurrency equals its output when run alone (the disconnect clean-up is compared as a multiset).
 func lifeRun(seed int64, n int, nextHid *int) string {
 	rng := rand.New(rand.NewSource(seed))
-	base := deviceGoroutines()
 	var scripts []lifeScript
 	for i := 0; i < n; i++ {
 		cfg, keys, akeys := lifeCfg(rng)
@@ -500,8 +503,12 @@ func lifeRun(seed int64, n int, nextHid *int) string {
 		}(i)
 	}
 	wg.Wait()
-	time.Sleep(50 * time.Millisecond)
-	left := deviceGoroutines() - base
+	// every device of this process has been disconnected: no goroutine of package device may remain
+	left := deviceGoroutines()
+	for t := 0; left != 0 && t < 100; t++ {
+		time.Sleep(10 * time.Millisecond)
+		left = deviceGoroutines()
+	}
 	allRet, anyPanic, slowest := true, false, time.Duration(0)
 	for _, c := range conc {
 		allRet = allRet && c.returned
